@@ -5,6 +5,7 @@ import re
 from ..core import AnalysisError, norm
 from ..sim import check_reach
 from .common import (effects, paths_of, check_writers, arg_by_name, named_call_sites, ctor_sites)
+from . import common as _cm
 
 CTRL = 'frontends.tui.controller.Controller'
 
@@ -202,7 +203,7 @@ def run(ctx):
     for cmd, attr, other in (('filter_command', 'display_matcher', 'stop_matcher'), ('break_point_command', 'stop_matcher', 'display_matcher')):
         f = repo.func('Controller.' + cmd)
         paths = paths_of(repo, f)
-        probs = check_reach(paths, lambda e: e.kind == 'store' and e.target == 'self.' + attr, lambda a: ('arg', True) if a.text == 'arg' else None,
+        probs = check_reach(paths, lambda e: e.kind == 'store' and e.target == 'self.' + attr, lambda a: ('arg', _cm.str_given(a.text, 'arg')) if _cm.str_given(a.text, 'arg') is not None else None,
                             lambda F: F['arg'], universe=['arg'])
         ctx.check(not probs, 'C12.2', '%s:updates-iff-arg' % cmd, f.loc(), '%s updates %s iff an argument is given' % (cmd, attr))
         n = 0
@@ -418,6 +419,21 @@ def run(ctx):
                 ctx.check(ok, 'C12.6', '%s:%s<-%s' % (q, which, t[:60]), f.loc(n),
                           'simplify rewrites %s only by simplifying each element, dropping never-matching constants, or collapsing to a single * alternative' % which,
                           '%s rewrites self.%s as %s: alternatives/exclusions that are not constants can be dropped or merged, so accumulated matchers lose members' % (q, which, t[:100]))
+        # rewrites done inside helper methods that did not exist on the pinned tree (inlined on the paths): the same rule on the store events
+        own = {id(x) for x in f.body_nodes()}
+        seen_ev = set()
+        for p in paths_of(repo, f, unroll=1):
+            for e in p.events:
+                if e.kind == 'store' and e.target in ('self.positive', 'self.negative') and e.node is not None and id(e.node) not in own and id(e.node) not in seen_ev:
+                    seen_ev.add(id(e.node))
+                    ns += 1
+                    which = e.target.split('.')[1]
+                    t = norm(e.value)
+                    m1, m2 = MAP.match(t), FLT.match(t)
+                    ok = bool((m1 and m1.group(2) == which) or (m2 and m2.group(2) == which))
+                    ctx.check(ok, 'C12.6', '%s:%s<-%s' % (q, which, t[:60]), f.loc(e.node),
+                              'simplify rewrites %s only by simplifying each element or dropping never-matching constants' % which,
+                              '%s rewrites self.%s as %s (in a helper): items that are not constants can be dropped or merged' % (q, which, t[:100]))
         ctx.floor('C12.6', ns, 2, 'list rewrites in ' + q)
     return ('path enumeration of parse_and_join (with a modelled parse failure), of join and of MatcherList.matches; typestate of the '
             'stored matchers. Decided: %s. Undecided: %s' % ('; '.join(ctx.decided), '; '.join(ctx.undecided)))
